@@ -5,13 +5,15 @@
    the ValueFlags bits, as an ASSUME-free invariant over a second variable. *)
 EXTENDS Alloc, Json
 
-CONSTANTS Level,      \* "site" | "symbol"
+CONSTANTS Level,      \* "site" | "symbol" | "ehframe"
           SymSubset   \* symbol kinds enumerated at the site level (all of them, or a few for the
                       \* anti-vacuity configurations, which only have to exhibit one counterexample)
 AllSyms == SymKinds
 FewSyms == {"global_d", "hidden_f", "imp_d", "imp_f"}
-VARIABLES c, offpar, addrpar, aligned, sibling, fl, phase, alloc, used
-vars == <<c, offpar, addrpar, aligned, sibling, fl, phase, alloc, used>>
+VARIABLES c, offpar, addrpar, aligned, sibling, fl, phase, alloc, used,
+          eh       \* Level = "ehframe": [loaded, empty, hdr : BOOLEAN] and the two sides' entries
+vars == <<c, offpar, addrpar, aligned, sibling, fl, phase, alloc, used, eh>>
+EhNone == [loaded |-> FALSE, empty |-> FALSE, hdr |-> FALSE, a |-> <<>>, u |-> <<>>]
 
 SiteCases == {x \in [sym : SymSubset, ref : RefKinds, out : Outs, secw : BOOLEAN, relax : {TRUE}, relr : BOOLEAN] :
                  /\ Applicable(x)
@@ -24,6 +26,9 @@ AnyCase == [sym |-> "global_d", ref |-> "abs64", out |-> "pie", secw |-> TRUE, r
 
 Init ==
     /\ phase = "start" /\ alloc = Zero /\ used = Zero
+    /\ IF Level = "ehframe"
+       THEN eh \in {[EhNone EXCEPT !.loaded = l, !.empty = e, !.hdr = h] : l \in BOOLEAN, e \in BOOLEAN, h \in BOOLEAN}
+       ELSE eh = EhNone
     /\ IF Level = "site"
        THEN /\ c \in SiteCases
             /\ offpar \in 0..1 /\ addrpar \in 0..1 /\ aligned \in BOOLEAN /\ sibling \in BOOLEAN
@@ -38,21 +43,28 @@ Init ==
             /\ (c.out = "staticpie" /\ c.relr /\ RelrRule = "old") => sibling
             /\ RelrRule = "code" => ~sibling            \* the rule of the tree does not depend on it
             /\ fl = NoFlags
+       ELSE IF Level = "ehframe"
+       THEN /\ c = AnyCase /\ offpar = 0 /\ addrpar = 0 /\ aligned = TRUE /\ sibling = FALSE /\ fl = NoFlags
        ELSE /\ c \in {[AnyCase EXCEPT !.out = o, !.relr = r] : o \in Outs, r \in BOOLEAN}
             /\ offpar = 0 /\ addrpar = 0 /\ aligned = TRUE /\ sibling = FALSE
             /\ fl \in {f \in FlagRecs : ReachableFlags(f, c.out)}
 
 Layout == /\ phase = "start"
+          /\ eh' = IF Level = "ehframe" THEN [eh EXCEPT !.a = EhAlloc(eh.loaded, eh.empty, eh.hdr)] ELSE eh
           /\ alloc' = IF Level = "site" THEN SiteAlloc(c, offpar, aligned) ELSE ResAlloc(fl, c.out, c.relr)
           /\ phase' = "laidout"
           /\ UNCHANGED <<c, offpar, addrpar, aligned, sibling, fl, used>>
 Write == /\ phase = "laidout"
+         /\ eh' = IF Level = "ehframe" THEN [eh EXCEPT !.u = EhConsume(eh.loaded, eh.empty, eh.hdr)] ELSE eh
          /\ used' = IF Level = "site" THEN SiteConsume(c, offpar, addrpar, aligned, sibling) ELSE ResConsume(fl, c.out, c.relr)
          /\ phase' = "written"
          /\ UNCHANGED <<c, offpar, addrpar, aligned, sibling, fl, alloc>>
 Next == Layout \/ Write \/ (phase = "written" /\ UNCHANGED vars)
 Spec == Init /\ [][Next]_vars
 Done == phase = "written"
+InvEhFrame == (Done /\ Level = "ehframe") => eh.a = eh.u
+EhRec == [loaded |-> eh.loaded, empty |-> eh.empty, hdr |-> eh.hdr, agree |-> (eh.a = eh.u)]
+EmitEh == (Done /\ Level = "ehframe") => PrintT(<<"REPLAY", ToJson(EhRec)>>)
 
 (* the property, up to the named deviations *)
 InvAccounting == Done => (alloc = used \/ (Level = "site" /\ SiteDev(c, offpar, addrpar, aligned, sibling) \in OpenDevs))
